@@ -11,7 +11,7 @@ from specs import core as S
 from vlib import domains as D
 from vlib.core import bad, check, ok
 
-LEVEL = "exploration"
+LEVEL = "proof"  # downgraded to exploration by the evidence writer unless every obligation is discharged on the run
 
 
 def _kinds():
@@ -208,6 +208,12 @@ def run(ctx):
         lists.append((tuple(rng.choice(perms) for _ in range(k)), rng.randint(0, 10**6)))
     ctx.run("C08.sorted", lists, chunk=10, rule="sorted() of seeded mixed lists is independent of the input order")
     ctx.exhaustive = False
-    ctx.assumptions += ["B layer: bounded cross-check of the deductive C08 obligations; pool listed in props/c08.py:pool"]
+    ctx.assumptions += [
+        "B layer: bounded cross-check of the deductive C08 obligations; pool listed in props/c08.py:pool",
+        "D layer (pyvc/dunder.py): Python's rich-comparison protocol (reflected operand first for proper subclasses overriding it, NotImplemented "
+        "fall-through, TypeError when both decline, identity fall-back for ==) modelled for the closed class set read from the AST",
+        "D layer: hash of a tuple / frozenset / int is an uninterpreted function of the VALUE; hash of any other object is fresh per evaluation",
+        "D layer: tuple and sorted-list orders are strict total orders (axioms); sorted(frozenset) is injective",
+    ]
     from props import dlayer
     dlayer.run(ctx, "C08")
